@@ -219,7 +219,7 @@ func (s *shortSim) setPre(n int) {
 func shortCase(r *lib.Run, idx int) {
 	rng := lib.Rng("C09/short", uint64(idx))
 	newState := rng.IntN(2) == 1
-	opts := chain.Opts{EventRich: true, NoNoopZero: true, EmptyProb: []float64{0, 0.2, 0.5}[rng.IntN(3)], MaxTxs: 2 + rng.IntN(4),
+	opts := chain.Opts{EventRich: true, NoNoopZero: lib.Avoid("noop-zero-write"), EmptyProb: []float64{0, 0.2, 0.5}[rng.IntN(3)], MaxTxs: 2 + rng.IntN(4),
 		NoClasses: rng.IntN(2) == 0}
 	s := &shortSim{r: r, idx: idx, rng: rng, g: chain.NewGen(rng, opts), new: newState, c: &chain.Chain{}, b: chain.NewBuilder(newState)}
 	var nodeOpts []blockchain.Option
